@@ -528,6 +528,16 @@ func (e *Exec) makeSlice(t types.Type, n, c *Term) Value {
 		e.goPanic("runtime error: makeslice: cap out of range")
 	}
 	if isByte(elem) {
+		if e.h.ConcreteMake && !e.inInit {
+			// harness option: case-split allocation sizes so that fills and copies unroll exactly
+			if _, ok := c.ConstU64(); !ok && e.branch(tb.Cmp(OpUle, c, tb.BVu(uint64(e.h.BufMax), 64))) {
+				cv := e.concretize(c, "make size")
+				c = tb.BVu(cv, 64)
+				if _, ok := n.ConstU64(); !ok {
+					n = tb.BVu(e.concretize(n, "make len"), 64)
+				}
+			}
+		}
 		max := e.h.BufMax
 		if cc, ok := c.ConstU64(); ok && cc <= 1<<20 {
 			max = int(cc)
